@@ -73,7 +73,7 @@ INT_CLASSES = ("zero", "int", "int_edge", "int_far")
 
 def plan(tier, seed):
     specs = []
-    reps = 2 if tier == "quick" else 120
+    reps = 2 if tier == "quick" else 360
     k = 0
     for rep in range(reps):
         for be, up, sc, shp in itertools.product(BACKENDS, UPS, SCLASSES, SHAPES):
